@@ -4,6 +4,7 @@
 pub mod attrmodel;
 pub mod cfgmodel;
 pub mod engine;
+pub mod evgen;
 pub mod gen;
 pub mod props;
 pub mod rec;
